@@ -3,6 +3,8 @@ mod error;
 mod options;
 mod resources;
 mod utils;
+#[cfg(feature = "verif-hooks")]
+pub mod verif_hooks;
 mod work_cache;
 mod work_item;
 mod worker;
